@@ -1,3 +1,12 @@
 -- Root of the `OpcuaModel` library: the executable model, helper lemmas and property theorems.
 import OpcuaModel.Model.Prelude
 import OpcuaModel.Model.NodeId
+import OpcuaModel.Model.Graph
+import OpcuaModel.Model.Order
+import OpcuaModel.Model.JsonIO
+import OpcuaModel.Lemmas.Str
+import OpcuaModel.Lemmas.Order
+import OpcuaModel.Props.C09
+import OpcuaModel.Props.C12
+import OpcuaModel.Props.C13
+import OpcuaModel.Props.C14
